@@ -3271,6 +3271,11 @@ class RockRidge:
             if new_dr_len < 0:
                 raise pycdlibexception.PyCdlibInternalError('Could not assign Rock Ridge entries')
 
+            if self.dr_entries.ce_record.len_cont_area > 2048:
+                # A continuation area lives in one logical block and areas
+                # are not chained, so this cannot be recorded.
+                raise pycdlibexception.PyCdlibInvalidInput('The Rock Ridge name and symlink target do not fit in one continuation area')
+
         if new_dr_len > ALLOWED_DR_SIZE:
             raise pycdlibexception.PyCdlibInternalError('Rock Ridge entry increased DR length too far')
 
